@@ -1,4 +1,5 @@
-from vfw.spec import Unit, Fn, Type, Impl, C, Loop, Rewrite, Insert
+from vfw.spec import Unit, Fn, Type, Impl, C, Loop, Rewrite, Insert, Raw
+from units.u_resolver.unit import NODE_OK
 from units.u_resolver.unit import COMMON, LOUD, FI, ITER_IMPL, advance_address, bits_until_alignment
 from units.u_output.unit import overlap_items, bitvec_items
 
@@ -23,7 +24,7 @@ next_verified = Fn(FI, "next", impl=ITER_IMPL, slot="resolver", ret="res", key="
         C("node_refers_to_defined_items", "res is Ok && res->Ok_0 is Some ==> (match res->Ok_0->0.node {"
           " asm::ResolverNode::Symbol(s) => defined(&defs.symbols, s.item_ref),"
           " asm::ResolverNode::Instruction(n) => defined(&defs.instructions, n.item_ref),"
-          " asm::ResolverNode::DataElement(n, k) => k < n.item_refs@.len() && defined(&defs.data_elems, Some(n.item_refs@[k as int])),"
+          " asm::ResolverNode::DataElement(n, k) => k < n.item_refs@.len() && k < n.elems@.len() && defined(&defs.data_elems, Some(n.item_refs@[k as int])),"
           " asm::ResolverNode::Res(n) => defined(&defs.res_directives, n.item_ref),"
           " asm::ResolverNode::Align(n) => defined(&defs.align_directives, n.item_ref),"
           " asm::ResolverNode::Addr(n) => defined(&defs.addr_directives, n.item_ref),"
@@ -39,9 +40,34 @@ next_verified = Fn(FI, "next", impl=ITER_IMPL, slot="resolver", ret="res", key="
 )
 
 
+# refinement check: the stub contract of `next` that resolve_once uses (U-resolver, clause NODE_OK) follows
+# from the contract proved here, under the proved contract's own precondition
+REFINE = Raw("resolver", "refine::next_stub_of_resolve_once", """
+impl<'ast, 'decls> ResolveIterator<'ast, 'decls> {
+pub fn verif_refine_next_for_resolve_once<'iter>(
+        &'iter mut self,
+        report: &mut diagn::Report,
+        decls: &'decls asm::ItemDecls,
+        defs: &asm::ItemDefs)
+        -> (res: Result<Option<ResolverContext<'iter, 'ast, 'decls>>, ()>)
+    requires
+        %s,
+        ast_ok(old(self).ast, decls, defs, old(self).bank_data@.len() as int),
+    ensures
+        res is Err ==> final(report).msgs() > old(report).msgs(),
+        res is Ok ==> final(report).msgs() == old(report).msgs() && final(report).errors() == old(report).errors(),
+        final(report).parents() == old(report).parents(),
+        final(self).is_last_iteration == old(self).is_last_iteration,
+        %s,
+{
+    self.next(report, decls, defs)
+}
+}
+""" % (iter_wf("old(self)"), NODE_OK))
+
 UNIT = Unit(
     "U-cursor", "u_output/skeleton.rs",
-    items=COMMON + overlap_items + bitvec_items + [advance_address.as_stub("resolver"), bits_until_alignment.as_stub("resolver"), next_verified],
+    items=COMMON + overlap_items + bitvec_items + [advance_address.as_stub("resolver"), bits_until_alignment.as_stub("resolver"), next_verified, REFINE],
     serves=["C01", "C03", "C06", "C02"],
     description="ResolveIterator::next: the walk over the AST shared by the resolve passes and build_output",
 )
